@@ -46,41 +46,53 @@ def main():
           clients.append((c, batches, ci))
         order = case.get('order') or list(range(len(clients)))
         listed = [clients[i] for i in order]
-        snap = jax.tree_util.tree_map(lambda x: np.array(x), (shared, [(b, ci) for _, b, ci in listed]))
-        rec = {'nb': nb, 'backend': backend, 'with_step_result': with_res, 'order': order, 'yields': [], 'error': None}
-        try:
-          with fec.for_each_client_backend(backend):
-            if with_res:
-              fn = fec.for_each_client(client_init, client_step, client_final, with_step_result=True)
+        fn = None
+        for call in range(case.get('calls', 1)):
+          if call > 0:
+            # the caller updates the shared input between calls: numpy leaves in place (same objects), jax leaves rebound
+            if case.get('jax_inputs', True):
+              shared['base'] = shared['base'] + 1
+              shared['k'] = shared['k'] + 1
             else:
-              fn = fec.for_each_client(client_init, client_step_noresult, client_final)
-          arg = (x for x in listed) if case.get('gen') else listed
-          for item in fn(shared, arg):
-            if with_res:
-              cid, o, res = item
-            else:
-              cid, o = item
-              res = None
-            cnt = int(o['cnt'])
-            seq = [int(x) for x in np.asarray(o['seq'])[:cnt]]
-            finite = bool(np.all(np.isfinite(np.asarray(o['vec']))))
-            y = {'id': int(cid), 'seq': seq, 'cnt': cnt, 'vec': [float(x) for x in np.asarray(o['vec'])], 'flag': bool(o['flag']),
-                 'h': int(o['h']), 'k': int(o['k']), 'finite': finite}
-            if res is not None:
-              y['res'] = [{'before': int(r['before']), 'tok': int(r['tok']), 'q': float(r['q'])} for r in res]
-            rec['yields'].append(y)
-        except Exception as ex:  # pylint: disable=broad-except
-          rec['error'] = f'{type(ex).__name__}: {ex}'[:300]
-        alive, same = True, True
-        flat_now = jax.tree_util.tree_leaves((shared, [(b, ci) for _, b, ci in listed]))
-        flat_old = jax.tree_util.tree_leaves(snap)
-        for a, b in zip(flat_now, flat_old):
-          if hasattr(a, 'is_deleted') and a.is_deleted():
-            alive = False
-          elif not np.array_equal(np.asarray(a), b):
-            same = False
-        rec['inputs_alive'], rec['inputs_unchanged'] = alive, same
-        out.append(rec)
+              shared['base'] += 1
+              shared['k'] += 1
+          snap = jax.tree_util.tree_map(lambda x: np.array(x), (shared, [(b, ci) for _, b, ci in listed]))
+          rec = {'nb': nb, 'backend': backend, 'with_step_result': with_res, 'order': order, 'yields': [], 'error': None,
+                 'call': call, 'base': 1000. + call, 'k': 7 + call}
+          try:
+            if fn is None:
+              with fec.for_each_client_backend(backend):
+                if with_res:
+                  fn = fec.for_each_client(client_init, client_step, client_final, with_step_result=True)
+                else:
+                  fn = fec.for_each_client(client_init, client_step_noresult, client_final)
+            arg = (x for x in listed) if case.get('gen') else listed
+            for item in fn(shared, arg):
+              if with_res:
+                cid, o, res = item
+              else:
+                cid, o = item
+                res = None
+              cnt = int(o['cnt'])
+              seq = [int(x) for x in np.asarray(o['seq'])[:cnt]]
+              finite = bool(np.all(np.isfinite(np.asarray(o['vec']))))
+              y = {'id': int(cid), 'seq': seq, 'cnt': cnt, 'vec': [float(x) for x in np.asarray(o['vec'])], 'flag': bool(o['flag']),
+                   'h': int(o['h']), 'k': int(o['k']), 'finite': finite}
+              if res is not None:
+                y['res'] = [{'before': int(r['before']), 'tok': int(r['tok']), 'q': float(r['q'])} for r in res]
+              rec['yields'].append(y)
+          except Exception as ex:  # pylint: disable=broad-except
+            rec['error'] = f'{type(ex).__name__}: {ex}'[:300]
+          alive, same = True, True
+          flat_now = jax.tree_util.tree_leaves((shared, [(b, ci) for _, b, ci in listed]))
+          flat_old = jax.tree_util.tree_leaves(snap)
+          for a, b in zip(flat_now, flat_old):
+            if hasattr(a, 'is_deleted') and a.is_deleted():
+              alive = False
+            elif not np.array_equal(np.asarray(a), b):
+              same = False
+          rec['inputs_alive'], rec['inputs_unchanged'] = alive, same
+          out.append(rec)
   json.dump(out, sys.stdout)
 
 
